@@ -24,27 +24,28 @@ def matching_family(tier, seed, events=(), need_sell=True, two_sec=True):
     if tier == "thorough":
         for l in sk.bs_family(6, 6, SHORT, need_sell=need_sell):
             items.append((l, BASES[0]))
-            if sk.spans_window(l) and len({x[2] for x in l}) >= 3:
-                for b in BASES[1:]:
-                    items.append((l, b))
         for l in sk.bs_family(1, 4, FULL, need_sell=need_sell):
-            for b in BASES:
-                items.append((l, b))
-        for l in sk.bs_family(5, 5, FULL, need_sell=need_sell):
             items.append((l, BASES[0]))
+            if sk.spans_window(l):
+                items.append((l, BASES[2]))
     else:
         # a VERIF_SEED-rotated 1/8 slice of N = 6
         six = list(sk.bs_family(6, 6, SHORT, need_sell=need_sell))
         items += [(l, BASES[0]) for i, l in enumerate(six) if i % 8 == seed % 8]
     if events:
-        nb = 3 if tier == "quick" else 4
+        nb = 3
         base = list(sk.bs_family(2, nb, SHORT, need_sell=need_sell))
         ratios = ("2",) if tier == "quick" else ("2", "5/2")
+        if tier == "thorough":
+            # four trade lines plus one event line: splits/unsplits only (capital events at three lines)
+            b4 = list(sk.bs_family(4, 4, SHORT, need_sell=need_sell))
+            for l in sk.with_events(b4, tuple(e for e in events if e in ("X", "U")), SHORT, ratios=("2",), max_events=1):
+                items.append((l, BASES[0]))
         for l in sk.with_events(base, events, SHORT, ratios=ratios, max_events=1):
             items.append((l, BASES[0]))
         if tier == "thorough":
             base3 = list(sk.bs_family(2, 3, SHORT, need_sell=need_sell))
-            for l in sk.with_events(base3, events, SHORT, ratios=("2",), max_events=2):
+            for l in sk.with_events(base3, events, [1, 30], ratios=("2",), max_events=2):
                 if sum(1 for x in l if x[0] in events) == 2:
                     items.append((l, BASES[0]))
     if events and two_sec:
@@ -176,8 +177,8 @@ def bounds_matching(tier):
                 "palette day (ratio 2); two securities with 2..4 lines on {0,1,30}; the same obligations through calculator::calculate for ledgers of <= 4 lines and <= 2 disposal days; "
                 "a split/unsplit of a second security that has no trades of its own; ~30 non-canonical 'interleaved' line orders (a day's buys and sells of one security alternating, or separated by another security's line, after an earlier buy and sale and before a repurchase); three 7-line ledgers of two securities repurchasing on one shared day; (C02/C03/C10/C11: a 30-day match across a split followed by a capital event; C05: split ratio 3 with a witness of every path and boundary witnesses replayed on the real build); "
                 "every quantity, price, fee, total a real-valued symbol (quantity > 0, money >= 0); <= 20000 paths per skeleton")
-    return ("every B/S ledger of one security with 1..6 lines on {0,1,30,31} from 2024-01-10, 1..5 lines (6 lines on >= 3 distinct days) at the three other calendar positions, 1..4 lines on the full palette "
-            "{0,1,29,30,31,32,61} at all four positions and 5 lines from 2024-01-10; 2..4 trade lines plus one event line (ratios 2, 5/2), 2..3 trade lines plus two event lines; two securities with 2..5 lines; "
+    return ("every B/S ledger of one security with 1..6 lines on {0,1,30,31} from 2024-01-10, 1..5 lines at the three other calendar positions, 1..4 lines on the full palette "
+            "{0,1,29,30,31,32,61} from 2024-01-10 and (when spanning a window) 2024-03-07; 2..4 trade lines plus one event line (ratios 2, 5/2), 2..3 trade lines plus two event lines; two securities with 2..5 lines; "
             "report level for <= 5 lines; all numeric fields symbolic; <= 20000 paths per skeleton")
 
 
